@@ -42,8 +42,13 @@ type ExprSpec struct {
 	// with VN entries; wrapped = fmt.Errorf("%w") around a *ValidationErrors with VN
 	// entries; empty = a non-nil *ValidationErrors holding no error (goa's own idiom
 	// for "valid").
+	// "recorded" = Validate calls eval.ReportError VN times and returns nil (the
+	// failure is recorded in the evaluation context instead of being returned).
 	VKind string `json:"vkind,omitempty"`
 	VN    int    `json:"vn,omitempty"`
+	// PN: Prepare calls eval.ReportError PN times (e.g. a Prepare that runs a DSL
+	// with eval.Execute and that DSL fails).
+	PN int `json:"pn,omitempty"`
 }
 
 // RootSpec describes one root. The root itself always implements Preparer,
@@ -167,6 +172,11 @@ func (w *world) validationResult(def eval.Expression, by, kind string, n int) er
 		return &eval.ValidationErrors{}
 	case "plain":
 		return fmt.Errorf("invalid %s", w.newToken(phValidate, by, kind))
+	case "recorded":
+		for i := 0; i < n; i++ {
+			eval.ReportError("invalid %s", w.newToken(phValidate, by, kind))
+		}
+		return nil
 	case "multi", "wrapped":
 		verr := &eval.ValidationErrors{}
 		for i := 0; i < n; i++ {
@@ -209,7 +219,12 @@ type tNode struct {
 
 func (n *tNode) EvalName() string { return n.spec.ID }
 func (n *tNode) DSL() func()      { return n.runDSL }
-func (n *tNode) Prepare()         { n.w.log = append(n.w.log, event{phPrepare, n.root.spec.Name, n.spec.ID}) }
+func (n *tNode) Prepare() {
+	n.w.log = append(n.w.log, event{phPrepare, n.root.spec.Name, n.spec.ID})
+	for i := 0; i < n.spec.PN; i++ {
+		eval.ReportError("cannot prepare %s", n.w.newToken(phPrepare, n.spec.ID, "prepare"))
+	}
+}
 func (n *tNode) Finalize()        { n.w.log = append(n.w.log, event{phFinalize, n.root.spec.Name, n.spec.ID}) }
 func (n *tNode) Validate() error {
 	n.w.log = append(n.w.log, event{phValidate, n.root.spec.Name, n.spec.ID})
